@@ -7,6 +7,7 @@
      interactive.py InteractiveContext.step 46-69             -> [interactive_step] (override / restore of the global step)
                     take_steps 136-163                        -> [steps]
                     run_until 104-143, run_for 85, run 70     -> [run_until]     (while clock < end: step(); since 98b7435f)
+     engine.py      initialize_simulants 248-255              -> [initialize]
      time.py        step_forward 164-183, get_active_simulants 185-190, move_simulants_to_end 192-194,
                     on_initialize_simulants 132-142           -> [step_forward], [active], [snooze_op], [create]
      event.py       EventChannel.emit 96-123                  -> event = (index, clock + step, step)
@@ -75,10 +76,17 @@ Definition before_FC : variant := {| restore_always := false; explicit_untracked
 Inductive ctx_class := Plain | Interactive.
 Definition default_untracked (c : ctx_class) : bool := match c with Plain => true | Interactive => false end.
 
-(* self.get_population(...).index as evaluated inside SimulationContext.step/finalize for `self` of class c *)
+(* <context>.get_population(untracked = arg) for a context of class c: engine.py 347 (default True) and
+   interactive.py get_population (default False) both call PopulationManager.get_population(untracked), which returns
+   the whole table when `untracked` and only the tracked rows otherwise *)
+Definition get_population (c : ctx_class) (arg : option bool) (s : sim_state) : list srow :=
+  let untracked := match arg with Some b => b | None => default_untracked c end in
+  if untracked then rows s else filter trk (rows s).
+
+(* self.get_population(...).index as evaluated inside SimulationContext.initialize_simulants/step/finalize for `self`
+   of class c: the engine passes untracked=True explicitly (since a70d8de6), before it passed nothing *)
 Definition pop_index (v : variant) (c : ctx_class) (s : sim_state) : list Z :=
-  let untracked := if explicit_untracked v then true else default_untracked c in
-  labels (if untracked then rows s else filter trk (rows s)).
+  labels (get_population c (if explicit_untracked v then Some true else None) s).
 
 (* ------------------------------------------------------------------------------------------------------------- *)
 (* clock operations (time.py)                                                                                    *)
@@ -163,6 +171,12 @@ Section WithComponents.
     | Rejected e => Rejected e
     | OutOfFuel => OutOfFuel
     end.
+
+  (* SimulationContext.initialize_simulants (engine.py 248-255), also reached from InteractiveContext.setup:
+     clock.step_backward(); simulant_creator(population_size); clock.step_forward(self.get_population(untracked=True).index) *)
+  Definition initialize (v : variant) (c : ctx_class) (n : nat) (s : sim_state) : result sim_state :=
+    let s1 := create (set_clock s (T s - S s) (S s) (rows s) (snooze s)) n in
+    step_forward (pop_index v c s1) s1.
 
   (* InteractiveContext.step(step_size = ovr) *)
   Definition interactive_step (v : variant) (ovr : option Z) (s : sim_state) : result (sim_state * list event) :=
@@ -334,10 +348,26 @@ Fixpoint check_steps (drv : Z) (s : sim_state) (obs : list step_obs) : bool :=
     end
   end.
 
-(* case: ((T0, S0, E, m, indiv), rows after initialize_simulants, driver, steps) *)
-Definition sched_case := ((Z * Z * Z * Z * bool) * list row_obs * Z * list step_obs)%type.
+(* initialize_simulants replayed: from the configured start time, the clock's initial step and the configured population
+   size the model must produce the observed clock, global step and table (the step-size pipeline's values are read off
+   the observed step_size column, as for a step) *)
+Definition check_init (drv : Z) (init : option (Z * Z * nat)) (t0 z0 e m0 : Z) (iv : bool) (rws : list row_obs) : bool :=
+  match init with
+  | None => true
+  | Some (tstart, zinit, n) =>
+    let s := {| T := tstart; S := zinit; E := e; m := m0; indiv := iv; rows := []; snooze := [] |} in
+    match initialize (table_req (map (fun r => let '(l, _, z, _) := r in (l, z)) rws)) current
+                     (if drv =? 0 then Plain else Interactive) n s with
+    | Ok s' => (T s' =? t0) && (S s' =? z0) && (if iv then rows_eqb (rows s') rws else rows_eqb_plain (rows s') rws)
+    | _ => false
+    end
+  end.
+
+(* case: ((T0, S0, E, m, indiv), rows after initialize_simulants, driver, steps, optional (start, initial step, size)) *)
+Definition sched_case := ((Z * Z * Z * Z * bool) * list row_obs * Z * list step_obs * option (Z * Z * nat))%type.
 Definition check_sched (k : sched_case) : bool :=
-  let '((t0, z0, e, m0, iv), rws, drv, obs) := k in
+  let '((t0, z0, e, m0, iv), rws, drv, obs, init) := k in
+  check_init drv init t0 z0 e m0 iv rws &&
   check_steps drv {| T := t0; S := z0; E := e; m := m0; indiv := iv; rows := map mk_row rws; snooze := [] |} obs.
 Definition check_scheds (ks : list sched_case) : bool := forallb check_sched ks.
 
